@@ -4,15 +4,21 @@
 (* One NDJSON line per public call; text, names and numerals are character *)
 (* codes, a coefficient is the text of repr(float) read exactly into an Fx *)
 (* (RxnString.tla).  Events:                                               *)
-(*   print   Reaction.to_string: the reaction, the options, the text       *)
-(*   parse   Reaction.from_string: text, delimiters, the known names,      *)
-(*           raise_error, the resulting reaction or the error / warnings;  *)
+(* (cls = Reaction | ChemkinReaction | SurfaceReaction: the same relations  *)
+(* bind the subclasses, which inherit or wrap the anchored methods)        *)
+(*   print   cls.to_string / str(): the reaction, the options (delimiters, *)
+(*           stoich_format text, stoich_space, include_TS, key), the text  *)
+(*   parse   cls.from_string: text, delimiters, the known names (species   *)
+(*           given as dict or list), raise_error, raise_warning, the       *)
+(*           resulting reaction or the error / warnings;                   *)
 (*           src = "printed" means the text is the previous print's text   *)
 (*           with blanks added (st carries that print event of the same    *)
 (*           trace id)                                                     *)
 (*   ring    pmutt.io.ring.read_reactions on a file given as its lines     *)
-(*   balance Reaction.check_element_balance: species (coefficient as exact *)
-(*           decimal <<m, e>>, composition) and accepted / rejected        *)
+(*           (raise_error / raise_warning forwarded)                       *)
+(*   balance cls.check_element_balance: species (coefficient as exact      *)
+(*           rational <<p, q>>, composition with exact decimal counts,     *)
+(*           "has a composition") and accepted / rejected                  *)
 (*   formula pmutt.parse_formula: items it was built from, text, result    *)
 (* Clauses (names of the relations that fail on a line):                   *)
 (*   PrintRaises PrintDenotes | ParseRaises UnknownNamed ParserAgrees      *)
@@ -42,8 +48,9 @@ PrintedRxn(e) == [re |-> SideItems(e.re), pr |-> SideItems(e.pr),
 PrintClauses(e) ==
    IF ~LoggedOK(e) THEN {"Unsupported"}
    ELSE IF e.raised THEN {"PrintRaises"}
+   ELSE IF ~FmtSupported(e.fmt) THEN {"Unsupported"}
    ELSE IF ~RxnSupported(e.out, e.spd, e.rxd) THEN {"PrintDenotes"}
-   ELSE IF RoundTripOK(PrintedRxn(e), e.d, ParseRxn(e.out, e.spd, e.rxd)) THEN {} ELSE {"PrintDenotes"}
+   ELSE IF RoundTripP(PrintedRxn(e), FmtPrec(e.fmt), ParseRxn(e.out, e.spd, e.rxd)) THEN {} ELSE {"PrintDenotes"}
 
 \* ---- parse
 \* the name occurs in the message outside the echoed reaction text
@@ -57,50 +64,85 @@ KeyErrorTxt == <<75, 101, 121, 69, 114, 114, 111, 114>>
 ValueErrorTxt == <<86, 97, 108, 117, 101, 69, 114, 114, 111, 114>>
 SideNames(items) == {items[i].nm : i \in 1..Len(items)}
 DropTS(p) == [p EXCEPT !.hasTS = FALSE, !.ts = <<>>]
-ParseClauses(e) ==
-   IF ~RxnSupported(e.text, e.spd, e.rxd) \/ (e.ok /\ ~LoggedOK(e)) THEN {"Unsupported"} ELSE
-   LET p == ParseRxn(e.text, e.spd, e.rxd)
-       known == SeqToSet(e.known)
+\* what the documentation of from_string demands for one text: a KeyError when a reactant or a
+\* product is unknown, or a TS species is unknown and raise_error is set; otherwise the reading,
+\* without its transition state when a TS species is unknown
+Demand(text, spd, rxd, known, strict) ==
+   LET p == ParseRxn(text, spd, rxd)
        missRP == (SideNames(p.re) \cup SideNames(p.pr)) \ known
        missTS == SideNames(p.ts) \ known
-       mustRaise == missRP # {} \/ (missTS # {} /\ e.strict)
-       missing == missRP \cup (IF e.strict THEN missTS ELSE {})
+   IN [p |-> p, missTS |-> missTS,
+       mustRaise |-> missRP # {} \/ (missTS # {} /\ strict),
+       missing |-> missRP \cup (IF strict THEN missTS ELSE {}),
+       want |-> IF missTS # {} THEN DropTS(p) ELSE p]
+ParseClauses(e) ==
+   IF ~RxnSupported(e.text, e.spd, e.rxd) \/ (e.ok /\ ~LoggedOK(e)) THEN {"Unsupported"} ELSE
+   LET dm == Demand(e.text, e.spd, e.rxd, SeqToSet(e.known), e.strict)
        got == Logged(e)
-       want == IF missTS # {} THEN DropTS(p) ELSE p
-   IN (IF mustRaise
-       THEN (IF ~e.ok /\ StartsWith(e.err, KeyErrorTxt) /\ \E nm \in missing : Named(e.err, e.text, nm)
+   IN (IF dm.mustRaise
+       THEN (IF ~e.ok /\ StartsWith(e.err, KeyErrorTxt) /\ \E nm \in dm.missing : Named(e.err, e.text, nm)
              THEN {} ELSE {"UnknownNamed"})
        ELSE (IF ~e.ok THEN {"ParseRaises"}
-             ELSE (IF ReadingAgrees(want, got) THEN {} ELSE {"ParserAgrees"})
-                  \cup (IF missTS # {} /\ ~\E w \in SeqToSet(e.warns), nm \in missTS : Named(w, e.text, nm)
+             ELSE (IF ReadingAgrees(dm.want, got) THEN {} ELSE {"ParserAgrees"})
+                  \cup (IF dm.missTS # {} /\ e.warn
+                           /\ ~\E w \in SeqToSet(e.warns), nm \in dm.missTS : Named(w, e.text, nm)
                         THEN {"UnknownNamed"} ELSE {})))
       \cup (IF e.src = "printed"
             THEN (IF st.tid = e.tid /\ NoBlanks(e.text) = NoBlanks(st.out) /\ e.spd = st.spd /\ e.rxd = st.rxd
                   THEN {} ELSE {"PadWitness"})
-                 \cup (IF e.ok /\ ~RoundTripOK(st.r, st.d, got) THEN {"RoundTrip"} ELSE {})
+                 \cup (IF e.ok /\ ~RoundTripP(st.r, st.prec, got) THEN {"RoundTrip"} ELSE {})
             ELSE {})
 
 \* ---- ring
 RingClauses(e) ==
    LET sel == SelectSeq(e.lines, LAMBDA ln : Contains(ln, e.rxd)) IN
-   IF \E i \in 1..Len(sel) : ~RxnSupported(sel[i], e.spd, e.rxd) THEN {"Unsupported"}
+   IF \E i \in 1..Len(sel) : ~RxnSupported(sel[i], e.spd, e.rxd) THEN {"Unsupported"} ELSE
+   LET dm == [i \in 1..Len(sel) |-> Demand(sel[i], e.spd, e.rxd, SeqToSet(e.known), e.strict)] IN
+   IF \E i \in 1..Len(sel) : dm[i].mustRaise
+   THEN (IF ~e.ok /\ StartsWith(e.err, KeyErrorTxt) THEN {} ELSE {"RingAgrees"})
    ELSE IF ~e.ok THEN {"RingAgrees"}
    ELSE IF \E i \in 1..Len(e.rxns) : ~LoggedOK(e.rxns[i]) THEN {"Unsupported"}
    ELSE IF /\ Len(e.rxns) = Len(sel)
-           /\ \A i \in 1..Len(sel) : ReadingAgrees(ParseRxn(sel[i], e.spd, e.rxd), Logged(e.rxns[i]))
+           /\ \A i \in 1..Len(sel) : ReadingAgrees(dm[i].want, Logged(e.rxns[i]))
         THEN {} ELSE {"RingAgrees"}
 
-\* ---- balance: coefficient <<m, e>> = m * 10^e as an integer number of 10^-4
-CoefOK(c) == c[2] >= -4 /\ c[2] <= 1 /\ c[1] >= 0 /\ c[1] <= 250000 \div PowTen(4 + c[2])     \* <= 25
-CoefUnits(c) == c[1] * PowTen(4 + c[2])
-BalSideOK(side) == \A i \in 1..Len(side) : CoefOK(side[i][1]) /\ \A m \in 1..Len(side[i][2]) : side[i][2][m][2] \in 0..999
-BalSide(side) == [i \in 1..Len(side) |-> [co |-> CoefUnits(side[i][1]), comp |-> side[i][2]]]
+\* ---- balance.  A species is <<coefficient, composition, hasComposition>>: the coefficient an exact
+\* rational <<p, q>> (a decimal m * 10^-k is <<m, 10^k>>; 1/3 is <<1, 3>> - the library gets the
+\* nearest double), a count an exact decimal <<m, e>> (element dictionaries may hold floats).
+\* Everything is scaled to integers: coefficients by the least common multiple L of the
+\* denominators, counts by 10^J (J = most decimals of any count).
+RECURSIVE TGcd(_, _)
+TGcd(a, b) == IF b = 0 THEN a ELSE TGcd(b, a % b)
+LcmCap(a, b) == IF a > 30000 THEN a ELSE (a \div TGcd(a, b)) * b
+BalAll(e) == e.re \o e.pr \o e.ts
+DenLcm(sp) == LET f[i \in 0..Len(sp)] == IF i = 0 THEN 1 ELSE LcmCap(f[i - 1], sp[i][1][2]) IN f[Len(sp)]
+CountDecs(sp) == LET ds == UNION {{-sp[i][2][m][2][2] : m \in 1..Len(sp[i][2])} : i \in 1..Len(sp)} \cup {0}
+                 IN CHOOSE d \in ds : \A x \in ds : x <= d
+CountUnits(c, J) == c[1] * PowTen(J + c[2])
+CoefUnitsR(c, L) == c[1] * (L \div c[2])
+BalSupported(e) ==
+   LET sp == BalAll(e) IN
+   /\ \A i \in 1..Len(sp) : sp[i][1][2] >= 1 /\ sp[i][1][2] <= 10000 /\ sp[i][1][1] >= 0 /\ sp[i][1][1] <= 25 * sp[i][1][2]
+   /\ DenLcm(sp) <= 30000
+   /\ CountDecs(sp) <= 2
+   /\ \A i \in 1..Len(sp) : \A m \in 1..Len(sp[i][2]) :
+         LET c == sp[i][2][m][2] IN
+         /\ c[1] >= 0 /\ c[1] < 100000 /\ c[2] <= 2 /\ CountDecs(sp) + c[2] <= 4
+         /\ CountUnits(c, CountDecs(sp)) <= 500000000 \div (CoefUnitsR(sp[i][1], DenLcm(sp)) + 1)
+   /\ Len(e.re) <= 4 /\ Len(e.pr) <= 4 /\ Len(e.ts) <= 4
+BalSide(side, L, J) == [i \in 1..Len(side) |->
+                          [co |-> CoefUnitsR(side[i][1], L),
+                           comp |-> [m \in 1..Len(side[i][2]) |-> <<side[i][2][m][1], CountUnits(side[i][2][m][2], J)>>]]]
+BalRxn(e) == LET L == DenLcm(BalAll(e))  J == CountDecs(BalAll(e)) IN
+             [re |-> BalSide(e.re, L, J), pr |-> BalSide(e.pr, L, J),
+              ts |-> IF e.hasTS THEN BalSide(e.ts, L, J) ELSE <<>>, hasTS |-> e.hasTS]
+BalAllComposed(e) == \A i \in 1..Len(BalAll(e)) : BalAll(e)[i][3]
 BalanceClauses(e) ==
-   IF ~(BalSideOK(e.re) /\ BalSideOK(e.pr) /\ BalSideOK(e.ts)) THEN {"Unsupported"} ELSE
-   LET r == [re |-> BalSide(e.re), pr |-> BalSide(e.pr), ts |-> IF e.hasTS THEN BalSide(e.ts) ELSE <<>>,
-             hasTS |-> e.hasTS]
-   IN (IF e.accepted = Balanced(r) THEN {} ELSE {"BalanceExact"})
-      \cup (IF ~e.accepted /\ ~StartsWith(e.err, ValueErrorTxt) THEN {"BalanceRaises"} ELSE {})
+   IF ~BalSupported(e) THEN {"Unsupported"}
+   ELSE IF ~BalAllComposed(e)            \* a species without a composition: totals do not exist
+        THEN (IF e.accepted THEN {"BalanceExact"} ELSE {})
+   ELSE (IF e.accepted = Balanced(BalRxn(e)) THEN {} ELSE {"BalanceExact"})
+        \cup (IF ~e.accepted /\ ~StartsWith(e.err, ValueErrorTxt) THEN {"BalanceRaises"} ELSE {})
 
 \* ---- formula
 FItemsOf(s) == [i \in 1..Len(s) |-> [sym |-> s[i][1], n |-> s[i][2]]]
@@ -121,60 +163,135 @@ Clauses(e) ==
      [] OTHER -> {"UnknownEvent"}
 
 \* ---- vacuity accounting: which situations the recorded lines actually exercised (register 2)
+FmtSituations == {"fmt_f0", "fmt_f1", "fmt_f2", "fmt_f3", "fmt_f4", "fmt_f5", "fmt_f6", "fmt_f", "fmt_g",
+                  "fmt_g2", "fmt_g3", "fmt_g4", "fmt_exact"}
+DelimSituations == {"delim_plus", "delim_eq", "delim_arrow", "delim_dot", "delim_gg", "delim_custom",
+                    "delim_blanks"}
 Situations == {"print_ts", "print_nots", "print_nearint", "print_decimal", "print_omitted", "print_noTSopt",
+               "print_ts_multi", "print_ts_coef", "print_str", "print_key_alias", "print_stoich_int",
+               "print_stoich_numpy", "print_cls_chemkin", "print_cls_surface", "print_4species",
+               "print_int10", "print_near_grey", "name_delimchar", "name_charge", "name_prefix",
                "parse_raise", "parse_ts_dropped", "parse_merged", "parse_printed", "parse_ts", "parse_decimal",
-               "ring_multi", "ring_skipped",
+               "parse_cls_chemkin", "parse_cls_surface", "parse_list", "parse_nowarn", "parse_ts_multi",
+               "parse_ts_dropped_multi", "parse_int10", "parse_one_written", "parse_tab", "parse_gap",
+               "parse_4species", "parse_merged_ts",
+               "ring_multi", "ring_skipped", "ring_ts_dropped", "ring_raise",
                "balance_balanced", "balance_unbalanced", "balance_ts", "balance_ts_decides", "balance_zero_entry",
-               "formula_repeat", "formula_nocount", "formula_twoletter", "formula_bigcount"}
+               "balance_rational", "balance_float_count", "balance_nocomp", "balance_ts_multi",
+               "balance_ts_coef_differs", "balance_cls_chemkin", "balance_cls_surface",
+               "formula_repeat", "formula_nocount", "formula_twoletter", "formula_bigcount", "formula_count1",
+               "formula_999"}
+              \cup FmtSituations \cup DelimSituations
 AllItems(p) == p.re \o p.pr \o p.ts
+Flag(c, nm) == IF c THEN {nm} ELSE {}
+FmtSeen(fmt) == IF fmt = <<>> THEN {"fmt_exact"} ELSE IF fmt = <<102>> THEN {"fmt_f"} ELSE IF fmt = <<103>> THEN {"fmt_g"}
+                ELSE IF fmt[3] = 102
+                     THEN {CASE fmt[2] = 48 -> "fmt_f0" [] fmt[2] = 49 -> "fmt_f1" [] fmt[2] = 50 -> "fmt_f2"
+                             [] fmt[2] = 51 -> "fmt_f3" [] fmt[2] = 52 -> "fmt_f4" [] fmt[2] = 53 -> "fmt_f5"
+                             [] fmt[2] = 54 -> "fmt_f6" [] OTHER -> "fmt_f"}
+                     ELSE {CASE fmt[2] = 50 -> "fmt_g2" [] fmt[2] = 51 -> "fmt_g3" [] fmt[2] = 52 -> "fmt_g4"
+                             [] OTHER -> "fmt_g"}
+Documented == {<<43>>, <<61>>, <<60, 61, 62>>, <<46>>, <<62, 62>>}
+DelimSeen(spd, rxd) ==
+   Flag(Trim(spd) = <<43>>, "delim_plus") \cup Flag(Trim(rxd) = <<61>>, "delim_eq")
+   \cup Flag(Trim(rxd) = <<60, 61, 62>>, "delim_arrow") \cup Flag(Trim(spd) = <<46>>, "delim_dot")
+   \cup Flag(Trim(rxd) = <<62, 62>>, "delim_gg")
+   \cup Flag(Trim(spd) \notin Documented \/ Trim(rxd) \notin Documented, "delim_custom")
+   \cup Flag(Trim(spd) # spd \/ Trim(rxd) # rxd, "delim_blanks")
+NameSeen(names, spd, rxd) ==
+   LET dchars == SeqToSet(Trim(spd)) \cup SeqToSet(Trim(rxd)) IN
+   Flag(\E nm \in names : SeqToSet(nm) \cap dchars # {}, "name_delimchar")
+   \cup Flag(\E nm \in names : SeqToSet(nm) \cap {43, 45} # {}, "name_charge")
+   \cup Flag(\E a \in names, b \in names : Len(a) < Len(b) /\ SubSeq(b, 1, Len(a)) = a, "name_prefix")
+IsIntFx(c) == c[2] = 0 /\ c[3] = 0
+\* the species tokens of a text (trimmed pieces), for the lexical situations
+TokensOf(text, spd, rxd) ==
+   LET sts == SplitOn(text, rxd)
+       f[k \in 0..Len(sts)] == IF k = 0 THEN <<>>
+                               ELSE f[k - 1] \o [j \in 1..Len(SplitOn(sts[k], spd)) |-> Trim(SplitOn(sts[k], spd)[j])]
+   IN f[Len(sts)]
 Seen(e) ==
-   CASE e.ev = "print" /\ LoggedOK(e) ->
-          LET its == AllItems(Logged(e)) IN
+   CASE e.ev = "print" /\ LoggedOK(e) /\ FmtSupported(e.fmt) ->
+          LET its == AllItems(Logged(e))
+              tsi == SideItems(e.ts) IN
           (IF e.hasTS /\ e.incTS THEN {"print_ts"} ELSE {"print_nots"})
-          \cup (IF e.hasTS /\ ~e.incTS THEN {"print_noTSopt"} ELSE {})
-          \cup (IF \E i \in 1..Len(its) : NearInt(its[i].co) /\ (its[i].co[2] # 0 \/ its[i].co[3] # 0)
-                THEN {"print_nearint"} ELSE {})
-          \cup (IF \E i \in 1..Len(its) : ~NearInt(its[i].co) THEN {"print_decimal"} ELSE {})
-          \cup (IF \E i \in 1..Len(its) : NearOne(its[i].co) THEN {"print_omitted"} ELSE {})
+          \cup Flag(e.hasTS /\ ~e.incTS, "print_noTSopt")
+          \cup Flag(\E i \in 1..Len(its) : NearInt(its[i].co) /\ ~IsIntFx(its[i].co), "print_nearint")
+          \cup Flag(\E i \in 1..Len(its) : ~NearInt(its[i].co), "print_decimal")
+          \cup Flag(\E i \in 1..Len(its) : ~NearInt(its[i].co) /\ its[i].co[1] + its[i].co[2] > 0
+                       /\ FxLe(FxAbsDiff(its[i].co, FxInt(NearestInt(its[i].co))),
+                               <<0, 100 + 100000 * NearestInt(its[i].co), 0>>), "print_near_grey")
+          \cup Flag(\E i \in 1..Len(its) : NearOne(its[i].co), "print_omitted")
+          \cup Flag(\E i \in 1..Len(its) : IsIntFx(its[i].co) /\ its[i].co[1] >= 10, "print_int10")
+          \cup Flag(e.hasTS /\ e.incTS /\ Len(tsi) >= 2, "print_ts_multi")
+          \cup Flag(e.hasTS /\ e.incTS /\ \E i \in 1..Len(tsi) : ~NearOne(tsi[i].co), "print_ts_coef")
+          \cup Flag(e.via = "str", "print_str") \cup Flag(e.key # "name", "print_key_alias")
+          \cup Flag(e.stype = "int", "print_stoich_int") \cup Flag(e.stype = "numpy", "print_stoich_numpy")
+          \cup Flag(e.cls = "ChemkinReaction", "print_cls_chemkin") \cup Flag(e.cls = "SurfaceReaction", "print_cls_surface")
+          \cup Flag(Len(e.re) = 4 \/ Len(e.pr) = 4, "print_4species")
+          \cup FmtSeen(e.fmt) \cup DelimSeen(e.spd, e.rxd)
+          \cup NameSeen({its[i].nm : i \in 1..Len(its)}, e.spd, e.rxd)
      [] e.ev = "parse" /\ RxnSupported(e.text, e.spd, e.rxd) ->
-          LET p == ParseRxn(e.text, e.spd, e.rxd)
-              known == SeqToSet(e.known)
-              missRP == (SideNames(p.re) \cup SideNames(p.pr)) \ known
-              missTS == SideNames(p.ts) \ known
-              its == AllItems(p) IN
-          (IF missRP # {} \/ (missTS # {} /\ e.strict) THEN {"parse_raise"} ELSE {})
-          \cup (IF missRP = {} /\ missTS # {} /\ ~e.strict THEN {"parse_ts_dropped"} ELSE {})
-          \cup (IF \E i \in 1..Len(its) : its[i].n > 1 THEN {"parse_merged"} ELSE {})
-          \cup (IF \E i \in 1..Len(its) : its[i].co[2] # 0 THEN {"parse_decimal"} ELSE {})
-          \cup (IF e.src = "printed" THEN {"parse_printed"} ELSE {})
-          \cup (IF p.hasTS THEN {"parse_ts"} ELSE {})
+          LET dm == Demand(e.text, e.spd, e.rxd, SeqToSet(e.known), e.strict)
+              p == dm.p
+              its == AllItems(p)
+              toks == TokensOf(e.text, e.spd, e.rxd)
+              lex == [j \in 1..Len(toks) |-> LexRun(toks[j])] IN
+          Flag(dm.mustRaise, "parse_raise")
+          \cup Flag(~dm.mustRaise /\ dm.missTS # {}, "parse_ts_dropped")
+          \cup Flag(~dm.mustRaise /\ dm.missTS # {} /\ Len(p.ts) >= 2, "parse_ts_dropped_multi")
+          \cup Flag(~dm.mustRaise /\ dm.missTS # {} /\ ~e.warn, "parse_nowarn")
+          \cup Flag(\E i \in 1..Len(its) : its[i].n > 1, "parse_merged")
+          \cup Flag(\E i \in 1..Len(p.ts) : p.ts[i].n > 1, "parse_merged_ts")
+          \cup Flag(\E i \in 1..Len(its) : its[i].co[2] # 0, "parse_decimal")
+          \cup Flag(e.src = "printed", "parse_printed")
+          \cup Flag(p.hasTS, "parse_ts") \cup Flag(Len(p.ts) >= 2, "parse_ts_multi")
+          \cup Flag(e.cls = "ChemkinReaction", "parse_cls_chemkin") \cup Flag(e.cls = "SurfaceReaction", "parse_cls_surface")
+          \cup Flag(e.spform = "list", "parse_list")
+          \cup Flag(\E j \in 1..Len(lex) : lex[j].ip # <<>> /\ lex[j].fp = <<>> /\ LexSupported(lex[j])
+                                             /\ DigitsToInt(lex[j].ip) >= 10, "parse_int10")
+          \cup Flag(\E j \in 1..Len(lex) : lex[j].ip # <<>> /\ LexSupported(lex[j]) /\ LexCoef(lex[j]) = FxOne, "parse_one_written")
+          \cup Flag(\E j \in 1..Len(toks) : \E x \in 1..Len(toks[j]) : IsBlankC(toks[j][x]), "parse_gap")
+          \cup Flag(\E x \in 1..Len(e.text) : e.text[x] = 9, "parse_tab")
+          \cup Flag(Len(p.re) = 4 \/ Len(p.pr) = 4, "parse_4species")
+          \cup (IF e.src = "hand" THEN DelimSeen(e.spd, e.rxd) \cup NameSeen({its[i].nm : i \in 1..Len(its)}, e.spd, e.rxd) ELSE {})
      [] e.ev = "ring" ->
-          LET sel == SelectSeq(e.lines, LAMBDA ln : Contains(ln, e.rxd)) IN
-          (IF Len(sel) >= 2 THEN {"ring_multi"} ELSE {})
-          \cup (IF Len(sel) < Len(e.lines) THEN {"ring_skipped"} ELSE {})
-     [] e.ev = "balance" /\ BalSideOK(e.re) /\ BalSideOK(e.pr) /\ BalSideOK(e.ts) ->
-          LET r == [re |-> BalSide(e.re), pr |-> BalSide(e.pr), ts |-> IF e.hasTS THEN BalSide(e.ts) ELSE <<>>,
-                    hasTS |-> e.hasTS] IN
-          (IF Balanced(r) THEN {"balance_balanced"} ELSE {"balance_unbalanced"})
-          \cup (IF e.hasTS THEN {"balance_ts"} ELSE {})
-          \cup (IF e.hasTS /\ ~Balanced(r) /\ Balanced([r EXCEPT !.hasTS = FALSE]) THEN {"balance_ts_decides"} ELSE {})
-          \cup (IF \E i \in 1..Len(r.re) : \E m \in 1..Len(r.re[i].comp) : r.re[i].comp[m][2] = 0
-                THEN {"balance_zero_entry"} ELSE {})
+          LET sel == SelectSeq(e.lines, LAMBDA ln : Contains(ln, e.rxd))
+              dm == [i \in 1..Len(sel) |-> Demand(sel[i], e.spd, e.rxd, SeqToSet(e.known), e.strict)] IN
+          Flag(Len(sel) >= 2, "ring_multi") \cup Flag(Len(sel) < Len(e.lines), "ring_skipped")
+          \cup Flag(\E i \in 1..Len(sel) : dm[i].mustRaise, "ring_raise")
+          \cup Flag((\A i \in 1..Len(sel) : ~dm[i].mustRaise) /\ \E i \in 1..Len(sel) : dm[i].missTS # {}, "ring_ts_dropped")
+     [] e.ev = "balance" /\ BalSupported(e) ->
+          LET r == BalRxn(e)  sp == BalAll(e) IN
+          Flag(e.cls = "ChemkinReaction", "balance_cls_chemkin") \cup Flag(e.cls = "SurfaceReaction", "balance_cls_surface")
+          \cup Flag(~BalAllComposed(e), "balance_nocomp")
+          \cup (IF BalAllComposed(e)
+                THEN (IF Balanced(r) THEN {"balance_balanced"} ELSE {"balance_unbalanced"})
+                     \cup Flag(e.hasTS /\ ~Balanced(r) /\ Balanced([r EXCEPT !.hasTS = FALSE]), "balance_ts_decides")
+                ELSE {})
+          \cup Flag(e.hasTS, "balance_ts") \cup Flag(e.hasTS /\ Len(e.ts) >= 2, "balance_ts_multi")
+          \cup Flag(e.hasTS /\ [i \in 1..Len(e.ts) |-> e.ts[i][1]] # [i \in 1..Len(e.pr) |-> e.pr[i][1]],
+                    "balance_ts_coef_differs")
+          \cup Flag(\E i \in 1..Len(sp) : \E m \in 1..Len(sp[i][2]) : sp[i][2][m][2][1] = 0, "balance_zero_entry")
+          \cup Flag(\E i \in 1..Len(sp) : sp[i][1][2] \notin {1, 10, 100, 1000, 10000}, "balance_rational")
+          \cup Flag(\E i \in 1..Len(sp) : \E m \in 1..Len(sp[i][2]) : sp[i][2][m][3], "balance_float_count")
      [] e.ev = "formula" ->
           LET items == FItemsOf(e.items) IN
-          (IF Len(Direct(items)) < Len(items) THEN {"formula_repeat"} ELSE {})
-          \cup (IF \E i \in 1..Len(items) : items[i].n = 0 THEN {"formula_nocount"} ELSE {})
-          \cup (IF \E i \in 1..Len(items) : Len(items[i].sym) = 2 THEN {"formula_twoletter"} ELSE {})
-          \cup (IF \E i \in 1..Len(items) : items[i].n >= 100 THEN {"formula_bigcount"} ELSE {})
+          Flag(Len(Direct(items)) < Len(items), "formula_repeat")
+          \cup Flag(\E i \in 1..Len(items) : items[i].n = 0, "formula_nocount")
+          \cup Flag(\E i \in 1..Len(items) : items[i].n = 1, "formula_count1")
+          \cup Flag(\E i \in 1..Len(items) : items[i].n = 999, "formula_999")
+          \cup Flag(\E i \in 1..Len(items) : Len(items[i].sym) = 2, "formula_twoletter")
+          \cup Flag(\E i \in 1..Len(items) : items[i].n >= 100, "formula_bigcount")
      [] OTHER -> {}
 Bump(f, S) == [k \in Situations |-> f[k] + (IF k \in S THEN 1 ELSE 0)]
 \* accounting costs a second reading of every text: only done when VACUITY=1 (a sample run)
 Accounting == "VACUITY" \in DOMAIN IOEnv /\ IOEnv.VACUITY = "1"
 
-NoPrint == [r |-> [re |-> <<>>, pr |-> <<>>, ts |-> <<>>], d |-> 0, out |-> <<>>, spd |-> <<>>, rxd |-> <<>>,
+NoPrint == [r |-> [re |-> <<>>, pr |-> <<>>, ts |-> <<>>], prec |-> PrecF(0), out |-> <<>>, spd |-> <<>>, rxd |-> <<>>,
             tid |-> -1]
-Step(e) == IF e.ev = "print" /\ LoggedOK(e)
-           THEN [r |-> PrintedRxn(e), d |-> e.d, out |-> e.out, spd |-> e.spd, rxd |-> e.rxd, tid |-> e.tid]
+Step(e) == IF e.ev = "print" /\ LoggedOK(e) /\ FmtSupported(e.fmt)
+           THEN [r |-> PrintedRxn(e), prec |-> FmtPrec(e.fmt), out |-> e.out, spd |-> e.spd, rxd |-> e.rxd, tid |-> e.tid]
            ELSE IF e.ev = "print" THEN NoPrint ELSE st
 
 Init == l = 1 /\ st = NoPrint /\ TLCSet(1, {}) /\ TLCSet(2, [k \in Situations |-> 0])
